@@ -488,7 +488,7 @@ pub fn pipedrop_case(p: &Profile, drop_output: bool) -> BoxedStrategy<Case> {
     mid.opw = if drop_output {
         OpW { consume: 6, yield_: 6, desync: 4, sync: 2, opengate: 2, trysync: 1, futdesync: 0, futsync: 0, after: 0, await_: 0, syncwait: 0, pollonce: 0, dropfut: 0, detach: 0, release: 0, waitfor: 0, ..OpW::default() }
     } else {
-        OpW { consume: 14, consumeinline: 3, yield_: 4, desync: 2, sync: 1, opengate: 2, trysync: 0, futdesync: 0, futsync: 0, after: 0, await_: 0, syncwait: 0, pollonce: 0, dropfut: 0, detach: 0, release: 0, waitfor: 0, ..OpW::default() }
+        OpW { consume: 14, consumeinline: 3, setdepth: 3, yield_: 4, desync: 2, sync: 1, opengate: 2, trysync: 0, futdesync: 0, futsync: 0, after: 0, await_: 0, syncwait: 0, pollonce: 0, dropfut: 0, detach: 0, release: 0, waitfor: 0, ..OpW::default() }
     };
     let mid_ops = vec(op_strategy(&mid), if drop_output { 0..=3 } else { 1..=5 });
     let pipe_body = vec(prop_oneof![4 => Just(Step::Touch), 4 => Just(Step::Yield), 3 => any::<u8>().prop_map(|g| Step::AwaitGate { g }), 1 => Just(Step::SelfWake)], 0..=2);
@@ -510,6 +510,7 @@ pub fn pipedrop_case(p: &Profile, drop_output: bool) -> BoxedStrategy<Case> {
                 Op::Consume { k, .. } => Op::Consume { slot: 255, k },
                 // (C12 is about consumers that read: no tear-down here)
                 Op::ConsumeInline { .. } => Op::ConsumeInline { slot: 255, drop_on_wake: false },
+                Op::SetDepth { depth, .. } => Op::SetDepth { slot: 255, depth },
                 other => other,
             }));
             if drop_output {
@@ -614,6 +615,8 @@ pub fn labels(id: &str, case: &Case, out: &Outcome) -> Vec<String> {
     flag(s.pipe_dropped_while_job > 0, "pipe-dropped-while-poll-job-active");
     flag(out.status == vsched::rt::Status::StepBound, "step-bound");
     flag(s.self_wakes > 0, "self-wake-during-poll");
+    flag(s.depth_changes > 0, "back-pressure-depth-changed-later");
+    flag(s.inline_polls > 0, "inline-task-polled-from-a-waker");
     flag(s.stream_self_wakes > 0, "stream-woke-itself-during-poll_next");
     flag(s.chained_closes > 0, "stream-ended-by-drop-of-another-pipe");
     flag(s.consumer_probe_pending > 0, "consumer-polled-with-two-wakers");
